@@ -65,6 +65,8 @@ var Alphabet = []Item{
 	{ID: "splat", Kind: kAttr, Name: "spl", Tmpl: "@·=·[¦y¦[¦*¦]¦,·y¦.¦*¦]\n"},
 	{ID: "midcomment", Kind: kAttr, Name: "mc", Tmpl: "@·=·1·/* mid */·+·2\n"},
 	{ID: "precomment", Kind: kAttr, Name: "pc", Tmpl: "@·=·/* pre */·[¦]\n"},
+	// comments between the tokens of a traversal, an index, a call and an interpolation
+	{ID: "exprcomments", Kind: kAttr, Name: "ec", Tmpl: "@·=·f¦(¦b·/* tc */·.c¦[·/* ic */·0¦]¦,·/* ac */·\"${·/* in tmpl */·d·}\"¦)\n"},
 	{ID: "parenml", Kind: kAttr, Name: "pm", Tmpl: "@·=·(\n»1·+\n»2\n)\n"},
 	{ID: "null", Kind: kAttr, Name: "a_rather_long_name", Tmpl: "@·=·null\n"},
 	// a name more than 40 columns longer than its neighbours' (alignment gaps wider than the
@@ -81,6 +83,7 @@ var Alphabet = []Item{
 	{ID: "blkml", Kind: kBlock, Tmpl: "¦blk·{\n¦}¦\n"},
 	{ID: "blkquoted", Kind: kBlock, Core: true, Tmpl: "blk·\"l1\"·\"l 2\"·{\n}\n"},
 	{ID: "blkbare", Kind: kBlock, Tmpl: "blk§l1§l2·\"q\"·{\n}\n"},
+	{ID: "blktypecomment", Kind: kBlock, Tmpl: "blk·/* after type */·\"a\"·/* after label */·{\n}\n"},
 	{ID: "blklabcomment", Kind: kBlock, Tmpl: "blk·\"a\"·/* between */·b·{\n}·# after brace\n"},
 	{ID: "blkoneline", Kind: kBlock, Core: true, Tmpl: "blk·{·x·=·1·}\n"},
 	{ID: "blktrailinline", Kind: kBlock, Tmpl: "blk·\"t\"·{\n»k·=·1\n}·/* after brace, inline */\n"},
